@@ -142,6 +142,12 @@ func unmarshalSecp256k1(jwk *jsonWebKey) (*JWK, error) {
 	x := jwk.X.bigInt()
 	y := jwk.Y.bigInt()
 
+	// btcec reduces the coordinates modulo the field prime before it tests the curve equation,
+	// so a coordinate that is not below the prime would be a second spelling of a point
+	if x.Cmp(curve.Params().P) >= 0 || y.Cmp(curve.Params().P) >= 0 {
+		return nil, ErrInvalidKey
+	}
+
 	if !curve.IsOnCurve(x, y) {
 		return nil, ErrInvalidKey
 	}
